@@ -209,6 +209,38 @@ func runC18(outDir string, seed int64, tier string) {
 					sum.Failures = append(sum.Failures, failure{ID: id, Class: "op:definition-missing-after-successful-op", Input: desc, Observed: "absent", Expected: fmt.Sprintf("op(%d, %s, %s)", pv, sa.text, nm)})
 				}
 			}
+			// a successful call touches only the class of its specifier (and, for a single name, only that name):
+			// every other definition is what it was ("one definition per name and class ... priority 0 removing the entry")
+			if !failed && len(out.Answers) == 1 && strings.HasPrefix(sa.coq, "SAtom ") {
+				clsOf := map[string]string{"fx": "pre", "fy": "pre", "xf": "post", "yf": "post", "xfx": "in", "xfy": "in", "yfx": "in"}
+				single := ""
+				if strings.HasPrefix(na.coq, "NAtom ") {
+					single = strings.ReplaceAll(strings.TrimSuffix(strings.TrimPrefix(na.coq, "NAtom \""), "\""), "\"\"", "\"")
+				}
+				untouched := func(e opEntry) bool {
+					return clsOf[e.s] != clsOf[sa.text] || (strings.HasPrefix(na.coq, "NAtom ") && e.n != single)
+				}
+				has := func(l []opEntry, e opEntry) bool {
+					for _, x := range l {
+						if x == e {
+							return true
+						}
+					}
+					return false
+				}
+				if c := clsOf[sa.text]; c != "" {
+					for _, e := range before {
+						if untouched(e) && !has(after, e) {
+							sum.Failures = append(sum.Failures, failure{ID: id, Class: "op:unrelated-definition-lost", Input: desc, Observed: fmt.Sprint("-", e), Expected: "definitions of other classes and names unchanged"})
+						}
+					}
+					for _, e := range after {
+						if untouched(e) && !has(before, e) {
+							sum.Failures = append(sum.Failures, failure{ID: id, Class: "op:unrelated-definition-appeared", Input: desc, Observed: fmt.Sprint("+", e), Expected: "definitions of other classes and names unchanged"})
+						}
+					}
+				}
+			}
 			inf, post := map[string]bool{}, map[string]bool{}
 			slots := map[string]int{}
 			for _, e := range after {
